@@ -77,3 +77,31 @@ Definition rspec_run (h : list event) : rspec := fold_left rspec_step h rspec_in
 
 Definition rspec_read (s : rspec) (r : reg) : N :=
   if power s then N.lor (last s r) (reg_mask r) else reg_mask r.
+
+(* ================================================================================================= *)
+(* Part 4 — C21: waveform generators as functions of the number of elapsed clock cycles.
+   n counts the clock cycles after the machine cycle in which the trigger was written (n = 1 is the first). *)
+
+(* channels 1 and 2: one of 8 duty steps every 4 * (2048 - f) clocks; a trigger does not reset the position *)
+Definition square_step_period (f : N) : N := 4 * (2048 - f).
+Definition duty_position (start f n : N) : N := (start + (n - 1) / square_step_period f) mod 8.
+
+(* channel 3: one of 32 samples every 2 * (2048 - f) clocks; a trigger resets the position to 0 *)
+Definition wave_step_period (f : N) : N := 2 * (2048 - f).
+Definition wave_position (f n : N) : N := ((n - 1) / wave_step_period f) mod 32.
+
+(* channel 4: divisor table of the statement and the clock period d(r) * 2^s *)
+Definition noise_divisor (r : N) : N :=
+  match r with 0 => 8 | 1 => 16 | 2 => 32 | 3 => 48 | 4 => 64 | 5 => 80 | 6 => 96 | _ => 112 end.
+Definition noise_clock_period (r s : N) : N := noise_divisor r * 2 ^ s.
+Definition noise_steps (r s n : N) : N := (n - 1) / noise_clock_period r s.
+
+(* the documented shift register: 15 bits; feedback = bit 0 xor bit 1; shift right; feedback into bit 14 and,
+   in 7-bit mode, also into bit 6 (replacing what was shifted there) *)
+Definition dmg_lfsr_next (short : bool) (x : N) : N :=
+  let fb := b2n (xorb (N.testbit x 0) (N.testbit x 1)) in
+  let y := x / 2 in
+  let y := y mod 16384 + 16384 * fb in
+  if short then (y / 128) * 128 + 64 * fb + y mod 64 else y.
+Definition dmg_lfsr_start : N := 32767.     (* all 15 bits set by a trigger *)
+Definition dmg_lfsr_seq (short : bool) (k : N) : N := N.iter k (dmg_lfsr_next short) dmg_lfsr_start.
